@@ -43,6 +43,8 @@ def test_key(I, kind, id):
             certv = certv.with_field(fi, Slice(ctx.alloc(der, 'der'), 0, len(der), len(der)))
             fi = I.prog.field_index('crypto/x509.Certificate', 'PublicKey')
             certv = certv.with_field(fi, Iface(PUB_DYN[kind], pub))
+            fi = I.prog.field_index('crypto/x509.Certificate', 'PublicKeyAlgorithm')
+            certv = certv.with_field(fi, {0: 1, 1: 3, 2: 4}[kind])      # x509.RSA / ECDSA / Ed25519
         del ctx.nondets[nrec:]
         cert = ctx.alloc(certv, 'testcert') if certv is not None else None
         keys[k] = {'priv': priv, 'pub': pub, 'cert': cert}
